@@ -24,6 +24,7 @@ type goPanic struct {
 type abortPath struct {
 	Kind   string // "infeasible", "unsupported", "unwind", "blocked", "assume"
 	Reason string
+	HangIn string // loop bound exceeded inside this function of the code under test ("" otherwise)
 }
 
 type deferred struct {
@@ -121,6 +122,16 @@ func (ex *Exec) abort(kind, reason string) {
 		panic(&specAbort{})
 	}
 	panic(&abortPath{Kind: kind, Reason: reason})
+}
+
+// isHarnessFn: the function comes from a harness overlay file (zz_verif_*.go).
+func (ex *Exec) isHarnessFn(fn *ssa.Function) bool {
+	for f := fn; f != nil; f = f.Parent() {
+		if f.Pos().IsValid() {
+			return strings.Contains(ex.P.Fset.Position(f.Pos()).Filename, "zz_verif_")
+		}
+	}
+	return false
 }
 
 func (ex *Exec) unsupported(fr *frame, what string) {
@@ -227,6 +238,11 @@ func (ex *Exec) runFrame(fr *frame) {
 		fr.merge = nil
 		fr.visits[b.Index]++
 		if fr.visits[b.Index] > ex.X.MaxLoop {
+			if ex.spec == 0 && !ex.isHarnessFn(fr.fn) {
+				// a loop of the code under test that does not terminate within the bound on this
+				// path: a candidate hang, confirmed or refuted by running the input natively
+				panic(&abortPath{Kind: "unwind", Reason: fmt.Sprintf("loop bound %d exceeded in %s block %d", ex.X.MaxLoop, fr.fn, b.Index), HangIn: fr.fn.String()})
+			}
 			ex.abort("unwind", fmt.Sprintf("loop bound %d exceeded in %s block %d", ex.X.MaxLoop, fr.fn, b.Index))
 		}
 		var next *ssa.BasicBlock
